@@ -67,7 +67,7 @@ Section W.
     - destruct to as [tt|pt|tt at_|tt it et|tt ent ys|tt ys]; try discriminate.
       simpl in Hk.
       assert (forall x, In x xs -> (vdepth x < k)%nat) as Hd by (intros x Hx; apply vdepth_in in Hx; lia).
-      generalize (starts_of xs (fst r)) as ss. intros ss. generalize (fst (ends_of nend xs ss (snd r))) as es. intros es.
+      generalize (starts_of (end_of nend r) xs (fst r)) as ss. intros ss. generalize (fst (ends_of (end_of nend r) xs ss (snd r))) as es. intros es.
       match goal with |- context [ (fix go (xs ys : list value) (ss es : list Z) {struct xs} := _) xs ys ss es ] =>
         set (go := (fix go (xs ys : list value) (ss es : list Z) {struct xs} : option (bool * list value * list region) := _)) end.
       assert (forall xs ys ss es, (forall x, In x xs -> (vdepth x < k)%nat) -> go xs ys ss es <> None) as Hgo.
